@@ -525,6 +525,10 @@ func execMsg(op string, a []string) string {
 		h := f[0]
 		args := &msgArgs{kind: h[0], mode: h[1], ext: unhxOpt(h[2]), data: unhx(h[3]), fields: f[1:]}
 		return dispatchMode(args, false)
+	case "msg.reuse":
+		return execReuse(a)
+	case "msg.noncehistory":
+		return execNonceHistory(a)
 	case "msg.reencode":
 		return reencode(a[0], unhx(a[1]))
 	case "msg.untag":
